@@ -13,7 +13,8 @@ ASSUMPTIONS = ["the per-variable DimArray operation is the oracle, as the proper
 
 FLOORS = {"op=take_scalar": (50, 50), "op=mean": (50, 50), "op=take_axis": (50, 50), "op=sort_axis": (50, 50), "op=reindex_axis": (50, 50),
           "op=interp_axis": (20, 20), "op=add_ds": (20, 20), "op=stack_ds": (20, 20), "op=concatenate_ds": (20, 20), "has-unaffected": (500, 500),
-          "has-0d": (300, 300), "var-dims-reordered": (300, 300), "by-position": (500, 500), "op=construct_misaligned": (20, 20), "op=add_ds_misaligned": (20, 20), "op=concatenate_ds_align": (10, 10)}
+          "has-0d": (300, 300), "var-dims-reordered": (300, 300), "by-position": (500, 500), "op=construct_misaligned": (20, 20), "op=add_ds_misaligned": (20, 20), "op=concatenate_ds_align": (10, 10),
+          "op=take_scalar_keepdims": (50, 50), "op=reindex_right": (50, 50), "op=reindex_left": (50, 50), "op=concatenate_ds_mismatch": (10, 10), "rejects": (5, 5)}
 
 LABELS = {"x": [4, 2, 6], "y": [2.0, 6.0], "z": ["k2", "k6"]}
 
@@ -34,6 +35,8 @@ def classify(scn):
         out.append("var-dims-reordered")
     if not i["byname"]:
         out.append("by-position")
+    if scn["out"].get("rejects") and all(i["d"] in v for v in i["vars"]):
+        out.append("rejects")
     return out
 
 
@@ -100,6 +103,10 @@ def _ops(i, ds, ds2, ds3=None):
     l0, l1 = (L[0], L[1]) if L else (None, None)
     if o == "take_scalar":
         return (lambda: ds.take(indices={d: l0}) if byname else ds.take(indices=l0, axis=axd)), (lambda k, v: v.take({d: l0}))
+    if o == "take_scalar_keepdims":
+        return (lambda: ds.take(indices={d: l0}, keepdims=True) if byname else ds.take(indices=l0, axis=axd, keepdims=True)), (lambda k, v: v.take({d: l0}, keepdims=True))
+    if o == "isel_scalar_keepdims":
+        return (lambda: ds.take(indices={d: 1}, indexing="position", keepdims=True)), (lambda k, v: v.take({d: 1}, indexing="position", keepdims=True))
     if o == "take_list":
         return (lambda: ds.take(indices={d: [l1, l0]}) if byname else ds.take(indices=[l1, l0], axis=axd)), (lambda k, v: v.take({d: [l1, l0]}))
     if o == "take_slice":
@@ -122,6 +129,11 @@ def _ops(i, ds, ds2, ds3=None):
     if o == "reindex_fill":
         new = [l1, 5 if d == "x" else 5.0, l0]
         return (lambda: ds.reindex_axis(new, axis=axd)), (lambda k, v: v.reindex_axis(new, axis=d))
+    if o in ("reindex_left", "reindex_right"):
+        # labels between, on, below and above the existing ones; neighbour in sorted order as numpy.searchsorted(side=method)
+        new = [l1, 5 if d == "x" else 5.0, l0, 1 if d == "x" else 1.0, 9 if d == "x" else 9.0]
+        m = o[8:]
+        return (lambda: ds.reindex_axis(new, axis=axd, method=m)), (lambda k, v: v.reindex_axis(new, axis=d, method=m))
     if o == "interp_axis":
         new = [3.0, 5.0, 2.0] if d == "x" else [3.0, 6.0]
         return (lambda: ds.interp_axis(new, axis=axd)), (lambda k, v: v.interp_axis(new, axis=d))
@@ -145,6 +157,13 @@ def _ops(i, ds, ds2, ds3=None):
     if o in ("concatenate_ds_align", "concatenate_ds_align_pos"):
         axc = d if o == "concatenate_ds_align" else list(ds.dims).index(d)
         return (lambda: A.da.concatenate_ds([ds, ds3], axis=axc, align=True)), (lambda k, v: A.da.concatenate([v, ds3[k]], axis=d, align=True))
+    if o == "concatenate_ds_mismatch":
+        ds4 = _mk_ds(i["vars"], offset=30)
+        if "x" in ds4.dims:
+            ds4.axes["x"][:] = [6, 2, 4]
+        if "y" in ds4.dims:
+            ds4.axes["y"][:] = [6.0, 2.0]
+        return (lambda: A.da.concatenate_ds([ds, ds4], axis=d)), (lambda k, v: A.da.concatenate([v, ds4[k]], axis=d))
     if o == "stack_ds":
         return (lambda: A.da.stack_ds([ds, ds2], axis="k", keys=[0, 1])), (lambda k, v: A.da.stack([v, ds2[k]], axis="k", keys=[0, 1]))
     if o == "concatenate_ds":
@@ -179,7 +198,24 @@ def replay(scn):
         what = None
         try:
             res = dsop()
+            if exp.get("rejects"):
+                what, kind = "the Dataset operation accepted inputs that the DimArray operation rejects (secondary axes differ)", "not-rejected"
         except Exception as e:  # noqa
+            if exp.get("rejects"):
+                # differential: the per-variable operation must reject at least one variable, too
+                rej = 0
+                for k in ds.keys():
+                    try:
+                        varop(k, ds[k])
+                    except Exception:  # noqa
+                        rej += 1
+                if rej == 0:
+                    what, kind = "specification and Dataset reject, the DimArray operation accepts every variable", "oracle-disagrees"
+                elif {k: A.snapshot(ds[k]) for k in ds.keys()} != before or tuple(ds.dims) != bdims:
+                    what, kind = "the operand Dataset was modified by a rejected operation", "operand-modified"
+                if what:
+                    viol.append(dict(what=what, sig=signature(scn, kind), variant="-"))
+                return dict(violations=viol, calls=calls + len(ds.keys()))
             what = "Dataset operation raised %s: %s" % (type(e).__name__, str(e)[:200])
             kind = "raised:" + type(e).__name__
         if what is None and ({k: A.snapshot(ds[k]) for k in ds.keys()} != before or tuple(ds.dims) != bdims):
